@@ -1225,7 +1225,8 @@ pub(crate) fn decode_utf8_sequence<'de, R: Read<'de> + ?Sized>(
     for _ in 0..len {
         let b = match read.next()? {
             Some(c) => c,
-            None => return error(read, ErrorCode::InvalidUnicodeCodePoint),
+            // The input ended inside the sequence
+            None => return error(read, ErrorCode::EofWhileParsingValue),
         };
         scratch.push(b);
     }
